@@ -107,6 +107,8 @@ def operand_evaluation_rule(chk, P):
 
 def run(chk, ctx):
     P = Prog(ctx["facts"])
+    from .iter_rules import plumbing_rule
+    plumbing_rule(chk, P, {"ParsedTestCase": ("stmts",), "TestCase": ("stmts",), "DataRowIteratorTestData": ("iter",)})   # what the parser / the binding produced is what runs
     chk.explanation = ("C08 decided clause by clause: LEX+TAB (operator spellings: the #[token] literal of each operator kind composed with From<TokenKind> for BinOp/UnaryOp), TAB (precedence compared as an ordered partition, so renumbering is not an alarm), "
                        "GUARD+ORG on BinOpTree::add (descend into `right` iff new.precedence() < cur.precedence(), strictly; otherwise wrap the whole old node as the left child) with the hand invariant of DESIGN.md, the feeding loop of parse_expr, and the role-preserving conversion to Expr, "
                        "callee identity in parse_factor (unary operand parsed by parse_factor, parentheses by parse_expr + ')'), TAB+term per operator (the arm's result over (left, right) must be in the accepted wrapping / masking / comparison set; division only under right != 0), "
